@@ -461,7 +461,11 @@ def extra_units():
     # ... and the loader's assumption about the selected strategy (one record per mate, both mates carrying the same cell
     # and strategy tags, so that per-cell files of the two mates stay synchronised) is C02's contract of every registered
     # strategy, re-verified under this property
-    return [share(c19.write, PROP), share(c19.prune, PROP), share(c19.close, PROP)] + [share(u, PROP) for u in c02.UNITS + c02.extra_units()]
+    # ... and a barcode lookup on a lazily loaded whitelist ends in an answer, never in RecursionError (C03's lazy-load units)
+    from contracts import c03
+    lazy = [share(u, PROP) for u in (c03.load_pending, c03.getitem, c03.lookup_lazy, c03.lookup)]
+    shared = [u for u in c02.UNITS + c02.extra_units() if getattr(u, 'name', '') != 'FastqIterator.__next__']
+    return [share(c19.write, PROP), share(c19.prune, PROP), share(c19.close, PROP)] + [share(u, PROP) for u in shared] + lazy
 
 
 # ------------------------------------------------------------------------------ fromRawFastq: an unknown sequencing index is a rejection
